@@ -494,3 +494,40 @@ def mon_c06(sn, faulty):
         if missing:
             bad.append("claims %s disappeared during the reconcile" % sorted(missing))
     return bad
+
+
+def benign_err(c):
+    e = c.get("err")
+    if not e:
+        return True
+    v, res = c["verb"], c["res"]
+    if v == "patch" and res == "pods":
+        return e == "notfound" or (e == "invalid" and c.get("kind") == "release")
+    if v == "create" and res == "controllerrevisions":
+        return e == "exists"
+    if v == "update" and (res in ("pods", "controllerrevisions") or (res == "statefulsets" and c.get("sub") == "status")):
+        return e == "conflict"
+    if v == "get" and res == "controllerrevisions":
+        return True
+    return False
+
+
+def mon_c09(sn, faulty):
+    bad = []
+    if not sn.ok:
+        return bad
+    nb = [c for c in sn.calls if not benign_err(c)]
+    if nb and sn.obs["result"] == "ok":
+        c = nb[0]
+        bad.append("%s %s %s failed (%s) but the reconcile reported success" % (c["verb"], c["res"], c.get("name", ""), c["err"]))
+    if "requeues" in sn.obs or sn.obs.get("via_worker"):
+        rq = sn.obs.get("requeues", 0)
+        if sn.obs["result"] == "err" and rq < 1:
+            bad.append("failed reconcile was not put back with back-off (NumRequeues=%d)" % rq)
+        if sn.obs["result"] == "ok" and rq != 0:
+            bad.append("successful reconcile left NumRequeues=%d" % rq)
+    # harmless: the partial work of a failed / crashed reconcile violates none of the safety rules
+    for m in (mon_c03, mon_c04, mon_c05, mon_c07, mon_c10, mon_c11):
+        bad += ["[partial work] " + x for x in m(sn)]
+    bad += ["[partial work] " + x for x in mon_c13(sn, True)]
+    return bad
